@@ -12,6 +12,7 @@ type Violation struct {
 	Kind   string `json:"kind"`             // short class, used for known-finding matching
 	Detail string `json:"detail"`           // human-readable
 	Replay any    `json:"replay,omitempty"` // the input/history that fails
+	Sig    map[string]any `json:"sig,omitempty"` // decidable facts about the (shrunk) failing input, for known-finding attribution
 }
 
 // Result is what every engine writes to <out>/result.json.
